@@ -1,7 +1,45 @@
-(* Observation commands: filled in by the corresponding property work; definitions only. *)
+(* Observation commands of the filename / tag domain (C14).  Definitions only. *)
 From Coq Require Import List NArith Bool String.
 Import ListNotations.
-Require Import Show.
+Require Import VParse VDec Py VMeaning SpecModel Names WheelModel Show.
 Open Scope N_scope.
 
-Definition run_files (cmd : list N) (args : list (list N)) : option (list N) := None.
+(* a frozenset of tags: the sorted, duplicate-free list of their str(), joined by "." (no field of a parsed tag contains "." or "-") *)
+Definition show_tags (ts : list tag) : list N := join [46] (sort_u (map tag_str ts)).
+Definition show_build (b : option (N * list N)) : list N :=
+  match b with None => asc "()" | Some (n, suf) => show_N n ++ [44] ++ suf end.
+Definition show_crash (c : crash) : list N := asc "CRASH".
+
+(* f.wheel fn -> E | CRASH | OK|name|str(version)|tags|build *)
+Definition obs_wheel (fn : list N) : list N :=
+  match parse_wheel fn with
+  | FErr => asc "E"
+  | FCrash c => show_crash c
+  | FOk (name, v, b, ts) => fields [asc "OK"; name; vstr v; show_tags ts; show_build b]
+  end.
+(* f.sdist fn -> E | OK|name|str(version) *)
+Definition obs_sdist (fn : list N) : list N :=
+  match parse_sdist fn with
+  | FErr => asc "E"
+  | FCrash c => show_crash c
+  | FOk (name, v) => fields [asc "OK"; name; vstr v]
+  end.
+(* f.tag s -> CRASH | n|tags   (n = size of the set) *)
+Definition obs_tag (s : list N) : list N :=
+  match parse_tag s with
+  | FErr => asc "E"
+  | FCrash c => show_crash c
+  | FOk ts => fields [show_N (N.of_nat (List.length (sort_u (map tag_str ts)))); show_tags ts]
+  end.
+(* f.tageq i a p i' a' p' -> interpreter|abi|platform|str of the first, then T/F: Tag(i,a,p) == Tag(i',a',p') *)
+Definition obs_tageq (args : list (list N)) : list N :=
+  let x := mk_tag (nth_str 0 args) (nth_str 1 args) (nth_str 2 args) in
+  let y := mk_tag (nth_str 3 args) (nth_str 4 args) (nth_str 5 args) in
+  fields [t_interp x; t_abi x; t_plat x; tag_str x; show_bool (tag_eq (fun _ => 0) x y)].
+
+Definition run_files (cmd : list N) (args : list (list N)) : option (list N) :=
+  if seqb cmd (asc "f.wheel") then Some (obs_wheel (nth_str 0 args))
+  else if seqb cmd (asc "f.sdist") then Some (obs_sdist (nth_str 0 args))
+  else if seqb cmd (asc "f.tag") then Some (obs_tag (nth_str 0 args))
+  else if seqb cmd (asc "f.tageq") then Some (obs_tageq args)
+  else None.
